@@ -80,6 +80,33 @@ impl FSpec {
             _ => POh::singleton(100 + l, fa, fb),
         }
     }
+    /// The same operation image as a *lax* diagram. Composite images are presented the way a user
+    /// would build them with `lax_compose`: the two operations keep separate boundary nodes and
+    /// the gluing is left as pending unifications (so folding images with `tensor_assign` has to
+    /// offset pending pairs correctly).
+    pub fn op_lax(&self, l: &u64, st: &[u32], tt: &[u32]) -> PLax<u32, u64> {
+        let kind = if self.op == 4 { (*l % 4) as u8 } else { self.op };
+        if kind != 1 {
+            return self.op(l, st, tt).to_lax();
+        }
+        let fa = self.ty(st);
+        let fb = self.ty(tt);
+        let (na, nb) = (fa.len(), fb.len());
+        // nodes: fa | 99 98 (outputs of first) | 99 98 (inputs of second) | fb
+        let mut w = fa.clone();
+        w.extend([99, 98, 99, 98]);
+        w.extend(fb.iter().cloned());
+        PLax {
+            w,
+            e: vec![
+                PEdge { l: 200 + l, s: (0..na).collect(), t: vec![na, na + 1] },
+                PEdge { l: 300 + l, s: vec![na + 2, na + 3], t: (na + 4..na + 4 + nb).collect() },
+            ],
+            s: (0..na).collect(),
+            t: (na + 4..na + 4 + nb).collect(),
+            q: vec![(na, na + 2), (na + 1, na + 3)],
+        }
+    }
     pub fn obj_fn(&self) -> impl Fn(&u32) -> Vec<u32> + '_ {
         move |o| self.obj(o)
     }
@@ -121,7 +148,7 @@ impl lax::functor::Functor<u32, u64, u32, u64> for LaxSpec {
         self.0.obj(o).into_iter()
     }
     fn map_operation(&self, a: &u64, source: &[u32], target: &[u32]) -> LOh<u32, u64> {
-        to_lax(&self.0.op(a, source, target).to_lax())
+        to_lax(&self.0.op_lax(a, source, target))
     }
     fn map_arrow(&self, f: &LOh<u32, u64>) -> LOh<u32, u64> {
         lax::functor::dyn_functor::define_map_arrow(self, f)
